@@ -175,6 +175,12 @@ func (cb *ClusterBuilder) buildWaypointInboundVIPCluster(
 		localCluster = cb.buildDFPCluster(clusterName, svc, &port)
 	}
 
+	if localCluster == nil {
+		// buildCluster builds nothing for a DNS-resolved service without endpoints (e.g. a ServiceEntry whose
+		// workloadSelector selects no workload yet), as on the sidecar / gateway path.
+		return nil
+	}
+
 	// Ensure VIP cluster has services metadata for stats filter usage
 	im := getOrCreateIstioMetadata(localCluster.cluster)
 	im.Fields["services"] = &structpb.Value{
@@ -364,6 +370,8 @@ func (cb *ClusterBuilder) buildWaypointInboundVIP(proxy *model.Proxy, svcs map[h
 			}
 		}
 	}
+	// services for which no cluster could be built (see buildWaypointInboundVIPCluster) leave no entry
+	clusters = slices.FilterInPlace(clusters, func(c *cluster.Cluster) bool { return c != nil })
 	return clusters
 }
 
